@@ -72,6 +72,8 @@ def wfB (T : Topo) : Bool :=
 
 def WF (T : Topo) : Prop := wfB T = true
 
+instance (T : Topo) : Decidable (WF T) := by unfold WF; infer_instance
+
 /-- interior face: a cell on both sides -/
 def Interior (T : Topo) (f : Nat) : Prop := cntPos T f = 1 ∧ cntNeg T f = 1
 
